@@ -748,7 +748,8 @@ fn main() {
 	let mut rng = Rng::new(args.seed);
 	let g = G { secp: Secp256k1::new() };
 	let mut run = Run { rec, fails: vec![], g: &g, oracle_only: 0 };
-	let reps: u64 = if args.thorough { 950 } else { 10 } * args.scale;
+	// thorough: 560 rounds ≈ 4.6 M cases (the Lean driver answers ~8 k cases/s: ≈ 10 min after the ≈ 5 min harness run)
+	let reps: u64 = if args.thorough { 560 } else { 10 } * args.scale;
 	let n_mut: u64 = if args.thorough { 60 } else { 40 };
 
 	// type ids of the covered messages, from the real reader
